@@ -123,3 +123,57 @@ def composites():
 
 def all_c01():
     return pair_core() + composites()
+
+
+# ------------------------------------------------------------------ C15: character classes
+
+def class_catalogue():
+    """Classes covering every combination of char / range / \\p / ^ / i and the
+    case boundaries @A Z[ `a z{, Kelvin sign, long s, dotted I."""
+    out = []
+    specs = [
+        # (name, chars, ranges, classes)
+        ("a", "a", [], []),
+        ("upz", "Z", [], []),
+        ("abc", "abc", [], []),
+        ("k", "k", [], []),
+        ("kelvin", "K", [], []),
+        ("longs", "ſ", [], []),
+        ("doti", "İ", [], []),
+        ("eacute", "é", [], []),
+        ("us", "_", [], []),
+        ("r_ac", "", [("a", "c")], []),
+        ("r_upAC", "", [("A", "C")], []),
+        ("r_upZa", "", [("Z", "a")], []),
+        ("r_upAz", "", [("A", "z")], []),
+        ("r_09", "", [("0", "9")], []),
+        ("r_atbr", "", [("@", "[")], []),
+        ("r_btbr", "", [("`", "{")], []),
+        ("r_eu", "", [("é", "ü")], []),
+        ("r_zKel", "", [("z", "K")], []),
+        ("p_L", "", [], ["L"]),
+        ("p_Lu", "", [], ["Lu"]),
+        ("p_Nd", "", [], ["Nd"]),
+        ("p_Latin", "", [], ["Latin"]),
+        ("mix1", "_", [("a", "f"), ("0", "9")], []),
+        ("mix2", "x", [("A", "F")], ["Nd"]),
+    ]
+    for name, chars, ranges, classes in specs:
+        for inv in (False, True):
+            for ic in (False, True):
+                n = "k_%s%s%s" % (name, "_inv" if inv else "", "_i" if ic else "")
+                c = lambda: cls(chars=chars, ranges=ranges, classes=classes, inv=inv, i=ic)
+                g = grammar(n, [rule("S", act(seq(label("x", star(c())), label("y", opt(any_()))), b_rec("s")))], tags=[])
+                tags = []
+                if ic:
+                    for lo, hi in ranges:
+                        if lo.lower() > hi.lower() or (lo.isupper() != hi.isupper()) or ord(hi) > 127:
+                            tags.append("icase-range-straddle")
+                    for ch in chars:
+                        if ord(ch) > 127 and ord(ch.lower()[0]) < 128:
+                            tags.append("icase-nonascii-folds-to-ascii")
+                        if ord(ch) < 128 and not ch.isalpha():
+                            pass
+                g["tags"] = sorted(set(tags))
+                out.append(g)
+    return out
